@@ -173,11 +173,16 @@ theorem Cauchy_ln_f_farfield_differs :
       (RealLike.ln (RealLike.abs ((⟨Real.exp 20⟩ : R) - ⟨0⟩)) - RealLike.ln (⟨1⟩ : R)) (RealLike.ln (⟨1⟩ : R))) = false := by
     show RealLike.lt _ _ = false
     rw [R.lt_false_iff, hterm, R.ln_val, Real.log_one]; norm_num
+  have c' : RealLike.gt (mulAdd (2.0 : R)
+      (RealLike.ln (RealLike.abs ((⟨Real.exp 20⟩ : R) - ⟨0⟩)) - RealLike.ln (⟨1⟩ : R)) (RealLike.ln (⟨1⟩ : R)))
+      (RealLike.ln (⟨1⟩ : R)) = true := by
+    show RealLike.lt _ _ = true
+    rw [R.lt_iff, hterm, R.ln_val, Real.log_one]; norm_num
   have c1 : RealLike.le (RealLike.ln (⟨1⟩ : R) - mulAdd (2.0 : R)
       (RealLike.ln (RealLike.abs ((⟨Real.exp 20⟩ : R) - ⟨0⟩)) - RealLike.ln (⟨1⟩ : R)) (RealLike.ln (⟨1⟩ : R)))
       (-(37.0 : R)) = true := by
     rw [R.le_iff, R.sub_val, hterm, R.neg_val, e37, R.ln_val, Real.log_one]; norm_num
-  simp only [Gen.Cauchy.ln_f_real, Gen.logaddexp, Gen.log1pexp, c, c1, Bool.false_eq_true, if_false, if_true,
+  simp only [Gen.Cauchy.ln_f_real, Gen.logaddexp, Gen.log1pexp, c, c', c1, Bool.false_eq_true, if_false, if_true,
     Spec.Cauchy.lnPdf, R.sub_val, R.neg_val, R.add_val, R.exp_val, hterm, R.ln_val, R.lnPi_val, Real.log_one,
     R.div_val, R.mul_val, h1, sub_zero, div_one, zero_sub]
   rw [← Real.exp_add, show (20:ℝ) + 20 = 40 by norm_num]
